@@ -451,8 +451,35 @@ func ruleR13f(h *H) {
 				}
 			}
 		case *ssa.UnOp:
-			if g, ok := x.X.(*ssa.Global); ok && strings.Contains(strings.ToLower(g.Name()), "empty") {
-				return true
+			// a package-level slice that is never assigned anywhere (it stays nil), whatever its name
+			if g, ok := x.X.(*ssa.Global); ok && g.Pkg != nil {
+				if _, isSlice := g.Type().(*types.Pointer).Elem().Underlying().(*types.Slice); isSlice {
+					assigned := false
+					check := func(f *ssa.Function) {
+						if f == nil || f.Blocks == nil {
+							return
+						}
+						ir.Instrs(f, func(in ssa.Instruction) {
+							if st, isSt := in.(*ssa.Store); isSt && st.Addr == ssa.Value(g) {
+								assigned = true
+							}
+						})
+					}
+					check(g.Pkg.Func("init"))
+					for _, m := range g.Pkg.Members {
+						if f, isF := m.(*ssa.Function); isF {
+							for _, ff := range ir.WithAnon(f) {
+								check(ff)
+							}
+						}
+					}
+					for _, f := range h.P.Funcs {
+						if f.Pkg == g.Pkg {
+							check(f)
+						}
+					}
+					return !assigned
+				}
 			}
 		}
 		return false
